@@ -36,6 +36,7 @@ structure R where
   live : HashMap Nat (List (Nat × Bool)) := {}   -- handle ↦ operations in the queue (false) / the vector (true)
   rdy : List (Nat × Nat) := []          -- (handle, operation) in the ready queue
   cur : HashMap Nat (Nat × Nat) := {}   -- actor ↦ (operation, handle) taken from the ready queue
+  tested : HashMap Nat Nat := {}        -- actor ↦ handle its last `poll_request` found complete (not yet consumed)
 
 def eraseFirst (l : List (Nat × Nat)) (p : Nat × Nat) : List (Nat × Nat) := l.erase p
 
@@ -51,8 +52,17 @@ def toEvs (r : R) (l : Line) (nextCb : Option Nat) : Option (R × List Ev) :=
     let st := b % 4294967296
     some ({ r with opOf := r.opOf.insert l.obj x, handleOf := r.handleOf.insert x a, nextOp := x + 1 },
           [.post t x ((mode / 8) % 8) (st == 0)])
-  | "mpi.eager" => (r.opOf.get? l.obj).map fun x => (r, [.eager t x])
-  | "mpi.ydone" => (r.opOf.get? l.obj).map fun x => (r, [.ydone t x])
+  | "mpi.tested" => some ({ r with tested := r.tested.insert t a }, [])
+  | "mpi.eager" =>
+    -- the model's `eager` / `ydone` mean "MPI_Test reported the request complete": only emitted when
+    -- the same thread's `poll_request` has just logged that for this operation's handle
+    match r.opOf.get? l.obj with
+    | some x => if r.tested.get? t == r.handleOf.get? x then some ({ r with tested := r.tested.erase t }, [.eager t x]) else none
+    | none => none
+  | "mpi.ydone" =>
+    match r.opOf.get? l.obj with
+    | some x => if r.tested.get? t == r.handleOf.get? x then some ({ r with tested := r.tested.erase t }, [.ydone t x]) else none
+    | none => none
   | "mpi.woke" => (r.opOf.get? l.obj).map fun x => (r, [.woke t x])
   | "mpi.sig" =>
     let fresh : Bool := match r.opOf.get? l.obj with
@@ -184,6 +194,8 @@ structure Mon where
   called : HashMap Nat Nat := {}    -- handle ↦ callback invocations
   enqd : HashMap Nat Nat := {}      -- handle ↦ registrations
   cbSeen : HashMap Nat Bool := {}   -- address ↦ callback body entered in this life
+  postH : HashMap Nat Nat := {}     -- address ↦ handle of the current life
+  lastTest : HashMap Nat Nat := {}  -- thread ↦ handle last reported complete by poll_request
   fails : List String := []
 
 def Mon.fail (m : Mon) (s : String) : Mon := if m.fails.length < 8 then { m with fails := m.fails ++ [s] } else m
@@ -193,7 +205,14 @@ def monStep (m : Mon) (l : Line) : Mon :=
   match l.site with
   | "mpi.post" =>
     let m := if m.life.get? l.obj == some 1 then m.fail s!"operation posted again before it completed [{l.raw}]" else m
-    { m with life := m.life.insert l.obj 1, cbSeen := m.cbSeen.insert l.obj false }
+    { m with life := m.life.insert l.obj 1, cbSeen := m.cbSeen.insert l.obj false, postH := m.postH.insert l.obj a }
+  | "mpi.tested" => { m with lastTest := m.lastTest.insert l.tid a }
+  | "mpi.eager" =>
+    if m.lastTest.get? l.tid == m.postH.get? l.obj then { m with lastTest := m.lastTest.erase l.tid }
+    else m.fail s!"completion before MPI reported the request complete (early poll) [{l.raw}]"
+  | "mpi.ydone" =>
+    if m.lastTest.get? l.tid == m.postH.get? l.obj then { m with lastTest := m.lastTest.erase l.tid }
+    else m.fail s!"completion before MPI reported the request complete (yield_while) [{l.raw}]"
   | "mpi.sig" =>
     let m := { m with sigs := m.sigs + 1 }
     if a == 3 then { m with life := m.life.insert l.obj 2 }
